@@ -177,6 +177,7 @@ struct Gen {
   }
   std::string text_valid(int depth, int ws_max) {
     model::GenOpts g = go; g.max_depth = depth;
+    if (r.chance(1, 20)) return model::write(model::gen_dense_value(r));   // compact: the most nodes a text of that length can hold
     JVal v = model::gen_value(r, g);
     if (r.chance(1, 2) && !v.is_container()) { JVal w = r.chance(1, 2) ? JVal::arr() : JVal::obj(); if (w.k == JVal::Arr) w.a.push_back(v); else w.o.emplace_back("k", v); v = w; }
     std::string t; model::WriteOpts wo; wo.ws_rng = &r; wo.ws_max = ws_max; wo.escape_more = r.chance(1, 3);
@@ -210,7 +211,7 @@ struct Gen {
 static uint64_t run_seed(uint64_t seed, const char* prop, uint64_t run) { return mix3(seed, prop_tag(prop), run); }
 
 static void common_knobs(Plan& p, Gen& g, uint64_t rs, uint32_t chk) {
-  if (g.r.chance(1, 3)) { static const int fl[] = {13, 14, 15, 24, 33, 40, 65, 70, 97, 130, 200}; g.go.family_len = fl[g.r.below(11)]; }
+  if (g.r.chance(1, 3)) { static const int fl[] = {13, 14, 15, 24, 33, 40, 65, 70, 97, 130, 200, 225, 240, 255, 256, 300, 520}; g.go.family_len = fl[g.r.below(g.r.chance(1, 3) ? 17 : 11)]; }
   { static const int64_t wa[] = {1, 1, 2, 4, 8}; p.knobs["walk_all_every"] = getenv("SIM_WALK") ? atoi(getenv("SIM_WALK")) : wa[g.r.below(5)]; }
   if (g.r.chance(1, 120)) { g.big = true; p.knobs["big"] = 1; g.go.huge_strings = true; }
   else if (g.r.chance(1, 2500)) { g.big = true; g.huge = true; p.knobs["big"] = 2; }
@@ -462,11 +463,17 @@ static void gen_c19(uint64_t seed, uint64_t run, const std::string& tier, Plan& 
       // text related to the existing value: permuted / mutated copy, or fresh
       JVal t = e;
       unsigned how = (unsigned)g.r.below(5);
-      if (how == 0) t = model::gen_value(g.r, go2);
+      bool compact = false;
+      if (how == 0 && g.r.chance(1, 3)) {   // a text with the most nodes per byte, as the whole text or as the value of a declared key
+        compact = g.r.chance(2, 3);
+        JVal dv = model::gen_dense_value(g.r);
+        if (t.k == JVal::Obj && !t.o.empty() && g.r.chance(1, 2)) t.o[g.r.below(t.o.size())].second = dv; else t = dv;
+      }
+      else if (how == 0) t = model::gen_value(g.r, go2);
       else { size_t muts = (size_t)g.r.range(1, 4); for (size_t q = 0; q < muts; q++) { JVal c = t; if (near_miss(c, g.r, go2)) t = c; } if (g.r.chance(1, 2)) t = permute(t, g.r); }
       if (t.k == JVal::Obj && g.r.chance(1, 2)) { std::string nk = model::gen_key(g.r, go2); if (t.find(nk) < 0) t.o.insert(t.o.begin() + (long)g.r.below(t.o.size() + 1), {nk, model::gen_value(g.r, go2, 1)}); }
       if (t.nonfinite_deep()) continue;
-      std::string txt; model::WriteOpts wo; wo.ws_rng = &g.r; wo.ws_max = 3; wo.escape_more = g.r.chance(1, 3);
+      std::string txt; model::WriteOpts wo; wo.ws_rng = &g.r; wo.ws_max = compact ? 0 : 3; wo.escape_more = !compact && g.r.chance(1, 3);
       model::write(t, txt, wo);
       Op& op = g.add("ParseSchema"); op.a.push_back(sl); op.s.push_back(""); op.s.push_back(txt);
       if (g.r.chance(1, 25)) op.fault = g.r.chance(1, 2) ? FT_STRBUF_FAIL : FT_NODESTACK_FAIL;
